@@ -213,3 +213,49 @@ func owners(rrs []dns.RR) string {
 	}
 	return strings.Join(o, " ")
 }
+
+// ---------------------------------------------------------------------------------------------
+// Remark of the C06 builder (round 10): a TTL made of unit letters without a number is read as 0.
+//
+// stringToTTL adds i x factor for every unit letter and never asks whether a digit came before it,
+// so "S", "hm", "w" and the empty string are TTLs of 0 seconds: `a S IN A 10.0.0.1`, `$TTL s` and
+// SOA timers like `H` are accepted. RFC 1035 5.1: a TTL is a decimal integer (BIND's unit suffixes
+// follow a number); such a token is neither TTL, class nor type, so the line has a problem and
+// none is reported - the same clause as ttl-overflow-wraps (round 4) and `$TTL not-a-ttl`.
+
+const kTTLUnits = "ttl-unit-without-digits"
+
+var unitOnlyLines = []string{
+	"bad.example. S IN A 10.0.0.1",
+	"bad.example. hm IN A 10.0.0.1",
+	"bad.example. IN w A 10.0.0.1",
+	"bad.example. 300 IN SOA ns.example. mbox.example. 1 H 3 4 5",
+	"bad.example. 300 IN SOA ns.example. mbox.example. 1 2 3 4 d",
+	"$TTL s",
+	"$TTL Wd",
+}
+
+func unitOnlyTTL(line string) bool {
+	for _, l := range unitOnlyLines {
+		if l == line {
+			return true
+		}
+	}
+	return false
+}
+
+func init() {
+	badLines = append(badLines, unitOnlyLines...)
+	c07Probe(kTTLUnits, func() error {
+		for _, line := range []string{"a S IN A 10.0.0.1\n", "a hm A 10.0.0.1\n", "$TTL s\na IN A 10.0.0.1\n", "a 300 IN SOA ns. mbox. 1 H 3 4 5\n"} {
+			out, viol := runParser(map[string]string{"t.db": line}, parserCfg{File: "t.db", Origin: "example."}, nil)
+			if viol != nil {
+				return fmt.Errorf("%s", strings.SplitN(viol.Error(), "\n", 2)[0])
+			}
+			if out.Err == nil {
+				return fmt.Errorf("%q is accepted: %v", line, out.First)
+			}
+		}
+		return nil
+	})
+}
